@@ -18,9 +18,9 @@ theorem toIxn_normSrc (legacy : Bool) (dst : Name) (srcs : List Src) (s : Src) :
 theorem toIxn_of_prec {e : Entry} {s : Src} (h : s.prec = precOf s.name e.name) : toIxn e s = ixnOf e.name s := by
   simp [toIxn, ixnOf, h]
 
-theorem mem_putEntry_iff {es : List Entry} {e x : Entry} :
-    x ∈ putEntry es e ↔ x = e ∨ (x ∈ es ∧ x.name ≠ e.name) := by
-  unfold putEntry
+theorem mem_putEntryX_iff {es : List Entry} {e x : Entry} :
+    x ∈ putEntryX es e ↔ x = e ∨ (x ∈ es ∧ x.name ≠ e.name) := by
+  unfold putEntryX
   split
   · next hany =>
     simp only [List.any_eq_true, decide_eq_true_eq] at hany
@@ -52,10 +52,12 @@ theorem flatten_cfg {st : Store} (hc : st.cfgMode = true) : flatten st = st.entr
   simp [flatten, hc]
 
 /-- the stored set after an entry has been put -/
-theorem mem_flatMap_putEntry (es : List Entry) (e' : Entry) (i : Ixn) :
+theorem mem_flatMap_putEntry (es : List Entry) (e' : Entry) (hl : ∀ e ∈ es, Lower e.name) (he : Lower e'.name)
+    (i : Ixn) :
     i ∈ (putEntry es e').flatMap Entry.toIxns ↔
       i ∈ e'.toIxns ∨ (i ∈ es.flatMap Entry.toIxns ∧ i.dst ≠ e'.name) := by
-  simp only [List.mem_flatMap, mem_putEntry_iff]
+  rw [putEntry_lower hl he]
+  simp only [List.mem_flatMap, mem_putEntryX_iff]
   constructor
   · rintro ⟨x, (rfl | ⟨hx, hne⟩), hi⟩
     · exact Or.inl hi
@@ -130,20 +132,21 @@ theorem local_names_distinct {e : Entry} (hw : EntryWF e) (hl : ∀ s ∈ e.sour
 
 /-- the stored set after an accepted upsert of a local intention into a local-only store -/
 theorem mem_flatten_mutUpsert {st : Store} (h : StoreWF st) (hc : st.cfgMode = true) (hl : LocalOnly st)
-    (dst : Name) (v : Src) (hacc : (mutUpsert st dst v).2 = none) (i : Ixn) :
+    (dst : Name) (v : Src) (hld : Lower dst) (hacc : (mutUpsert st dst v).2 = none) (i : Ixn) :
     i ∈ flatten (mutUpsert st dst v).1 ↔
       i = ixnOf dst v ∨ (i ∈ flatten st ∧ ¬ (i.src = v.name ∧ i.dst = dst)) := by
   unfold mutUpsert at hacc ⊢
-  simp only [hc, Bool.not_true, Bool.false_eq_true, if_false] at hacc ⊢
-  cases hg : getEntry st.entries dst with
+  simp only [hc, Bool.not_true, Bool.false_eq_true, if_false, getEntry_lower h.lowerEntries hld] at hacc ⊢
+  cases hg : getEntryX st.entries dst with
   | none =>
     simp only [hg] at hacc ⊢
-    have hnone := getEntry_eq_none.mp hg
+    have hnone := getEntryX_eq_none.mp hg
     split at hacc
     · cases hacc
     · next hv =>
       simp only [hv]
-      rw [flatten_cfg_mk, mem_flatMap_putEntry, mem_normalize_toIxns, ← flatten_cfg hc]
+      rw [flatten_cfg_mk, mem_flatMap_putEntry _ _ h.lowerEntries (by simpa [normalize] using hld),
+        mem_normalize_toIxns, ← flatten_cfg hc]
       simp only [List.mem_singleton, exists_eq_left]
       constructor
       · rintro (h1 | ⟨h1, h2⟩)
@@ -156,7 +159,7 @@ theorem mem_flatten_mutUpsert {st : Store} (h : StoreWF st) (hc : st.cfgMode = t
           simpa [normalize, toIxn] using hnone e he
   | some prev =>
     simp only [hg] at hacc ⊢
-    obtain ⟨hprev, hpn⟩ := (getEntry_eq_some h.names).mp hg
+    obtain ⟨hprev, hpn⟩ := (getEntryX_eq_some h.names).mp hg
     have hpw := h.entries prev hprev
     have hdn := local_names_distinct hpw (fun s hs =>
       hl (toIxn prev s) ((mem_flatten_cfg hc).mpr ⟨prev, hprev, s, hs, rfl⟩))
@@ -164,7 +167,8 @@ theorem mem_flatten_mutUpsert {st : Store} (h : StoreWF st) (hc : st.cfgMode = t
     · cases hacc
     · next hv =>
       simp only [hv]
-      rw [flatten_cfg_mk, mem_flatMap_putEntry, mem_normalize_toIxns, ← flatten_cfg hc]
+      rw [flatten_cfg_mk, mem_flatMap_putEntry _ _ h.lowerEntries (by simpa [normalize] using h.lowerEntries prev hprev),
+        mem_normalize_toIxns, ← flatten_cfg hc]
       simp only [mem_upsertSource hdn rfl]
       have hname : (normalize false ⟨prev.name, upsertSource v.name v prev.sources⟩).name = dst := by
         simp [normalize, hpn]
@@ -202,7 +206,7 @@ def upOps (ws : List (Name × Src)) : List Op := ws.map fun w => Op.up w.1 w.2
 /-- the stored set after a sequence of accepted upserts of local intentions with pairwise distinct
     (destination, source), none of which is stored yet -/
 theorem mem_flatten_runE_ups {st0 st : Store} (h : StoreWF st0) (hc : st0.cfgMode = true) (hl : LocalOnly st0)
-    (ws : List (Name × Src)) (hloc : ∀ w ∈ ws, w.2.peer = [])
+    (ws : List (Name × Src)) (hloc : ∀ w ∈ ws, w.2.peer = []) (hlow : ∀ w ∈ ws, Lower w.1)
     (hd : ws.Pairwise fun a b => ¬ (a.1 = b.1 ∧ a.2.name = b.2.name))
     (hfresh : ∀ w ∈ ws, ∀ i ∈ flatten st0, ¬ (i.src = w.2.name ∧ i.dst = w.1))
     (hr : runE st0 (upOps ws) = some st) (i : Ixn) :
@@ -218,9 +222,10 @@ theorem mem_flatten_runE_ups {st0 st : Store} (h : StoreWF st0) (hc : st0.cfgMod
     · next st1 heq =>
       have hacc : (mutUpsert st0 w.1 w.2).2 = none := by rw [heq]
       have hst1 : (mutUpsert st0 w.1 w.2).1 = st1 := by rw [heq]
-      have hm := fun j => mem_flatten_mutUpsert h hc hl w.1 w.2 hacc j
+      have hlw := hlow w List.mem_cons_self
+      have hm := fun j => mem_flatten_mutUpsert h hc hl w.1 w.2 hlw hacc j
       rw [hst1] at hm
-      have h1 : StoreWF st1 := hst1 ▸ storeWF_mutUpsert h w.1 w.2
+      have h1 : StoreWF st1 := hst1 ▸ storeWF_mutUpsert h w.1 w.2 hlw
       have hc1 : st1.cfgMode = true := by rw [← hst1, mutUpsert_cfgMode, hc]
       have hl1 : LocalOnly st1 := by
         intro j hj
@@ -234,7 +239,8 @@ theorem mem_flatten_runE_ups {st0 st : Store} (h : StoreWF st0) (hc : st0.cfgMod
           simp only [ixnOf]
           exact fun hh => this ⟨hh.2, hh.1⟩
         · exact hfresh x (List.mem_cons_of_mem _ hx) j hj0
-      have := ih h1 hc1 hl1 (fun x hx => hloc x (List.mem_cons_of_mem _ hx)) hd.2 hf1 hr
+      have := ih h1 hc1 hl1 (fun x hx => hloc x (List.mem_cons_of_mem _ hx))
+        (fun x hx => hlow x (List.mem_cons_of_mem _ hx)) hd.2 hf1 hr
       rw [this, hm]
       have hw0 := hfresh w List.mem_cons_self i
       simp only [List.mem_cons, exists_eq_or_imp]
@@ -336,6 +342,7 @@ theorem applyEntry_cfgMode (st : Store) (e : Entry) : (applyEntry st e).1.cfgMod
   split <;> rfl
 
 theorem mem_flatten_applyEntry {st : Store} (hc : st.cfgMode = true) (e : Entry)
+    (hl : ∀ x ∈ st.entries, Lower x.name) (hle : Lower e.name)
     (hacc : (applyEntry st e).2 = none) (i : Ixn) :
     i ∈ flatten (applyEntry st e).1 ↔ (∃ s ∈ e.sources, i = ixnOf e.name s) ∨ (i ∈ flatten st ∧ i.dst ≠ e.name) := by
   unfold applyEntry at hacc ⊢
@@ -347,10 +354,12 @@ theorem mem_flatten_applyEntry {st : Store} (hc : st.cfgMode = true) (e : Entry)
     have hcm : st = ⟨true, st.entries, st.rows⟩ := by cases st; simp_all
     rw [hcm]
     simp only
-    rw [flatten_cfg_mk, flatten_cfg_mk, mem_flatMap_putEntry, mem_normalize_toIxns]
+    rw [flatten_cfg_mk, flatten_cfg_mk, mem_flatMap_putEntry _ _ hl (by simpa [normalize] using hle),
+      mem_normalize_toIxns]
     simp [normalize]
 
-theorem mem_flatten_runE_ents {st0 st : Store} (hc : st0.cfgMode = true) (es : List Entry)
+theorem mem_flatten_runE_ents {st0 st : Store} (h : StoreWF st0) (hc : st0.cfgMode = true) (es : List Entry)
+    (hlow : ∀ e ∈ es, Lower e.name)
     (hd : es.Pairwise fun a b => a.name ≠ b.name) (hfresh : ∀ e ∈ es, ∀ i ∈ flatten st0, i.dst ≠ e.name)
     (hr : runE st0 (entOps es) = some st) (i : Ixn) :
     i ∈ flatten st ↔ i ∈ flatten st0 ∨ ∃ e ∈ es, ∃ s ∈ e.sources, i = ixnOf e.name s := by
@@ -365,15 +374,17 @@ theorem mem_flatten_runE_ents {st0 st : Store} (hc : st0.cfgMode = true) (es : L
     · next st1 heq =>
       have hacc : (applyEntry st0 e).2 = none := by rw [heq]
       have hst1 : (applyEntry st0 e).1 = st1 := by rw [heq]
-      have hm := fun j => mem_flatten_applyEntry hc e hacc j
+      have hle := hlow e List.mem_cons_self
+      have hm := fun j => mem_flatten_applyEntry hc e h.lowerEntries hle hacc j
       rw [hst1] at hm
+      have h1 : StoreWF st1 := hst1 ▸ storeWF_applyEntry h e hle
       have hc1 : st1.cfgMode = true := by rw [← hst1, applyEntry_cfgMode, hc]
       have hf1 : ∀ x ∈ rest, ∀ j ∈ flatten st1, j.dst ≠ x.name := by
         intro x hx j hj
         rcases (hm j).mp hj with ⟨s, _, rfl⟩ | ⟨hj0, _⟩
         · simpa [ixnOf] using hd.1 x hx
         · exact hfresh x (List.mem_cons_of_mem _ hx) j hj0
-      have := ih hc1 hd.2 hf1 hr
+      have := ih h1 hc1 (fun x hx => hlow x (List.mem_cons_of_mem _ hx)) hd.2 hf1 hr
       rw [this, hm]
       have hw0 := hfresh e List.mem_cons_self i
       simp only [List.mem_cons, exists_eq_or_imp]
